@@ -28,8 +28,11 @@ Judge(ev) ==
     ELSE IF ~Pre(ev.kind, ev.alts, ev.op, ev.o, ev.x, ev.pre) THEN "harness-pre"
     ELSE IF ~Post(ev.kind, ev.alts, ev.op, ev.o, ev.x, ev.pre, ev.post, ev.ret) THEN "post"
     ELSE IF ~ObsOK(ev.kind, ev.alts, ev.obs, ev.post) THEN "obs"
-    ELSE IF "life" \in DOMAIN ev THEN LifeVerdict(ev)
     ELSE "ok"
+
+\* the lifetime verdict is reported independently of the behavioural one (a call can break both; C03 keeps life-*)
+JudgeLife(ev) ==
+    IF ev.op # "reset" /\ "life" \in DOMAIN ev /\ Pre(ev.kind, ev.alts, ev.op, ev.o, ev.x, ev.pre) THEN LifeVerdict(ev) ELSE "ok"
 
 Expected(ev) ==
     IF ev.op # "reset" /\ Pre(ev.kind, ev.alts, ev.op, ev.o, ev.x, ev.pre)
@@ -40,10 +43,10 @@ Init == l = 1 /\ nbad = 0
 Next ==
     /\ l <= Len(Tr)
     /\ l' = l + 1
-    /\ LET v == Judge(Tr[l]) IN
-       IF v = "ok" THEN nbad' = nbad
-       ELSE /\ nbad' = nbad + 1
-            /\ PrintT(<<"DEV", l, v, Expected(Tr[l])>>)
+    /\ LET v == Judge(Tr[l]) lf == JudgeLife(Tr[l]) IN
+       /\ nbad' = nbad + (IF v = "ok" THEN 0 ELSE 1) + (IF lf = "ok" THEN 0 ELSE 1)
+       /\ (v # "ok" => PrintT(<<"DEV", l, v, Expected(Tr[l])>>))
+       /\ (lf # "ok" => PrintT(<<"DEV", l, lf, "-">>))
 
 Spec == Init /\ [][Next]_<<l, nbad>>
 Consumed == TLCGet("stats").diameter - 1 = Len(Tr)
